@@ -342,6 +342,92 @@ def _month_agree_tabulate(ctx, py_region: set, rs_region: set) -> bool | None:
     return diff == 0
 
 
+def _py_diff_tabulate(ctx) -> bool | None:
+    """DIFF.tabulated: the pure-Python `precise_diff` run by the checker's interpreter on standard-library values - every ordered
+    pair from a list of naive datetimes (month ends of every length, leap days, first / last instants of days, times of day
+    that force every borrow), the same for plain dates, and aware pairs with fixed offsets (same offset; different offsets,
+    which are compared as the same instants in UTC).  For a <= b the components must be non-negative and canonical (0-11
+    months, 0-30 days, 0-23 h, 0-59 min/s, < 10^6 us) and lead back to b when added to a - month shift with the day clamped to
+    the target month, then days and the time - ; the reversed pair must give the same components negated; total_days (naive and date pairs) is the
+    difference of the calendar dates."""
+    import calendar
+    import datetime as _dt
+    from ..rules import minieval
+    m = pmod("_helpers")
+    fn = m.func("precise_diff")
+    D = _dt.datetime
+    base = [D(2020, 1, 31, 0, 0, 0), D(2020, 2, 29, 23, 59, 59, 999999), D(2020, 3, 1, 0, 0, 0), D(2020, 3, 31, 12, 30, 15, 500000), D(2021, 1, 31, 23, 0, 0),
+            D(2021, 2, 28, 0, 0, 0, 1), D(2021, 2, 28, 23, 59, 59), D(2021, 3, 30, 6, 0, 0), D(2021, 3, 31, 5, 59, 59, 999999), D(2021, 4, 30, 12, 0, 0),
+            D(2021, 5, 31, 12, 0, 0, 1), D(2021, 12, 31, 23, 59, 59, 999999), D(2022, 1, 1, 0, 0, 0), D(2019, 12, 31, 12, 0, 0), D(2024, 2, 29, 12, 0, 0),
+            D(2025, 2, 28, 12, 0, 0), D(2023, 8, 31, 0, 0, 1), D(2023, 9, 30, 0, 0, 0), D(2000, 2, 29, 1, 2, 3, 4), D(1999, 11, 30, 4, 3, 2, 1)]
+
+    def cal(w, y, mo, d, h=0, mi=0, s_=0, us=0):
+        i = w.year * 12 + w.month - 1 + y * 12 + mo
+        yy, mm = divmod(i, 12)
+        return w.replace(year=yy, month=mm + 1, day=min(w.day, calendar.monthrange(yy, mm + 1)[1])) + _dt.timedelta(days=d, hours=h, minutes=mi, seconds=s_, microseconds=us)
+    try:
+        consts = {}
+        for st in m.tree.body:
+            if isinstance(st, ast.ImportFrom) and st.module == "pendulum.constants":
+                for a_ in st.names:
+                    consts[a_.asname or a_.name] = core.const("constants", a_.name)
+        funcs = {st.name: st for st in m.top() if isinstance(st, ast.FunctionDef)}
+        glob = {**consts, "datetime": minieval.Stub(datetime=_dt.datetime, date=_dt.date, tzinfo=_dt.tzinfo, timedelta=_dt.timedelta), "ValueError": ValueError, "math": __import__("math"),
+                "PreciseDiff": minieval.ClassStub(_new=lambda *a, **k: minieval.Stub(_pd=a, _kw=k), _isa=lambda v: False), "zoneinfo": minieval.Stub(ZoneInfo=None), "Timezone": None}
+
+        def run_pd(a, b):
+            r = minieval.call(fn, [a, b], {}, {**funcs, "$globals": glob})
+            if not isinstance(r, minieval.Stub) or not hasattr(r, "_pd") or len(r._pd) != 8 or r._kw:
+                raise core.Unsupported("precise_diff does not return PreciseDiff(8 positional values)")
+            return r._pd
+        bad, n = [], 0
+
+        def judge(label, a, b, a_utc, b_utc):
+            """a <= b as compared by the function; a_utc/b_utc: the naive values the decomposition is about"""
+            nonlocal n
+            n += 1
+            y, mo, d, h, mi, s_, us, td = run_pd(a, b)
+            if not (0 <= mo <= 11 and 0 <= d <= 30 and 0 <= h <= 23 and 0 <= mi <= 59 and 0 <= s_ <= 59 and 0 <= us < 10**6 and y >= 0):
+                bad.append(f"{label}: components {(y, mo, d, h, mi, s_, us)} are not canonical")
+                return
+            is_dt = isinstance(a_utc, _dt.datetime)
+            back = cal(a_utc if is_dt else _dt.datetime.combine(a_utc, _dt.time()), y, mo, d, h, mi, s_, us)
+            tgt = b_utc if is_dt else _dt.datetime.combine(b_utc, _dt.time())
+            if back != tgt:
+                bad.append(f"{label}: {(y, mo, d, h, mi, s_, us)} added to the start gives {back.isoformat(' ')}, not the end {tgt.isoformat(' ')}")
+                return
+            da, db = (a_utc.date(), b_utc.date()) if is_dt else (a_utc, b_utc)
+            if getattr(a, "tzinfo", None) is None and td != (db - da).days:      # aware pairs: total_days is not part of the property's statement
+                bad.append(f"{label}: total_days {td} (expected {(db - da).days})")
+                return
+            r = run_pd(b, a)
+            if tuple(r) != tuple(-v for v in (y, mo, d, h, mi, s_, us, td)):
+                bad.append(f"{label}: the reversed pair gives {tuple(r)}, not the components negated")
+        for i, a in enumerate(base):
+            for b in base:
+                if a < b:
+                    judge(f"precise_diff({a.isoformat(' ')}, {b.isoformat(' ')})", a, b, a, b)
+                    if i % 3 == 0:
+                        judge(f"precise_diff({a.date()}, {b.date()})", a.date(), b.date(), a.date(), b.date()) if a.date() < b.date() else None
+        tz0, tz5, tzm3 = _dt.timezone(_dt.timedelta(0)), _dt.timezone(_dt.timedelta(hours=5, minutes=30)), _dt.timezone(_dt.timedelta(hours=-3))
+        for a in base[::3]:
+            for b in base[1::4]:
+                for ta, tb in ((tz5, tz5), (tz0, tz5), (tz5, tzm3), (tzm3, tz0)):
+                    aa, bb = a.replace(tzinfo=ta), b.replace(tzinfo=tb)
+                    if not aa < bb:
+                        continue
+                    au, bu = (aa - aa.utcoffset()).replace(tzinfo=None), (bb - bb.utcoffset()).replace(tzinfo=None)
+                    judge(f"precise_diff({aa.isoformat(' ')}, {bb.isoformat(' ')})", aa, bb, au, bu)
+    except (core.Unsupported, KeyError, TypeError, AttributeError, IndexError, RecursionError, ValueError, minieval.Raised) as e:
+        ctx.unverified("DIFF.tabulated", "py:precise_diff", f"outside the checker's interpreter: {type(e).__name__}: {e}", m.loc(fn))
+        return None
+    ctx.ob("DIFF.tabulated", "py:precise_diff", not bad, f"{n} ordered pairs evaluated: " + (f"wrong: {bad[:3]}" if bad else
+           "canonical non-negative components that lead back to the end point, negated for the reversed pair, total_days the difference of the dates"), m.loc(fn))
+    if not bad:
+        ctx.established(("BORROW", "SIGN", "UTCSHIFT.shift", "UTCSHIFT.when", "MONTHBRANCH.rebuild"), "py:", "DIFF.tabulated")
+    return not bad
+
+
 def _rs_outputs(ctx, f: mirfront.MirFn) -> None:
     names = f.names()
     sign = f.local("sign")
@@ -898,6 +984,7 @@ def run(ctx) -> None:
     ctx.explanation = EXPLANATION
     hm = pmod("_helpers")
     fn = hm.func("precise_diff")
+    ctx.step(_py_diff_tabulate, ctx)
     ctx.step(_py_utc_shift, ctx, hm, fn)
     roles = py_roles(fn)
     pc = py_chain(ctx, hm, fn)
